@@ -32,6 +32,17 @@ func NewSched(seed uint64, aggro int) *Sched {
 func (s *Sched) Install() { verifhook.Set(s.at) }
 func Uninstall()          { verifhook.Set(nil) }
 
+// HitsSnapshot returns a copy of the per-point counters (goroutines of a finished trial may still pass points).
+func (s *Sched) HitsSnapshot() map[string]int {
+	s.mu.Lock()
+	defer s.mu.Unlock()
+	out := make(map[string]int, len(s.Hits))
+	for k, v := range s.Hits {
+		out[k] = v
+	}
+	return out
+}
+
 func (s *Sched) at(point string) {
 	k := s.n.Add(1)
 	s.mu.Lock()
